@@ -335,7 +335,10 @@ func runProbe(u *Unit, res *UnitResult, cur *curFile) {
 	t.Touched = m.touched
 	limit := a.MaxSharedSize + 3*4096 + 64
 	lastCap := -1
-	var keep []*Slot // one live allocation per class stays, so Allocs is checked against > 0
+	var keep []*Slot
+	// a wrong Allocs counter does not stop the sweep (the class structure is still
+	// observed completely); only its first occurrence is reported
+	var allocsFail *Fail
 	f := Protect(func() *Fail {
 		for s := 0; s <= limit; s++ {
 			cur.set(map[string]interface{}{"probe_size": s})
@@ -343,10 +346,10 @@ func runProbe(u *Unit, res *UnitResult, cur *curFile) {
 			if p == nil {
 				return failf("malloc-nil", "Malloc(%d) returned nil", s)
 			}
-			if len(*p) != s {
-				return failf("len-mismatch", "Malloc(%d) returned len %d", s, len(*p))
+			l, c := rawLenCap(p)
+			if l != s {
+				return failf("len-mismatch", "Malloc(%d) returned len %d", s, l)
 			}
-			c := cap(*p)
 			if c < s {
 				return failf("cap-too-small", "Malloc(%d) returned cap %d < size", s, c)
 			}
@@ -356,8 +359,8 @@ func runProbe(u *Unit, res *UnitResult, cur *curFile) {
 				full[0] = 1
 				full[c-1] = 2
 			}
-			if got := a.Allocs.Load(); got != int64(len(keep)+1) {
-				return failf("allocs-counter", "after Malloc(%d): Allocator.Allocs = %d, live allocations = %d", s, got, len(keep)+1)
+			if got := a.Allocs.Load(); got != int64(len(keep)+1) && allocsFail == nil {
+				allocsFail = failf("allocs-counter", "after Malloc(%d): Allocator.Allocs = %d, live allocations = %d", s, got, len(keep)+1)
 			}
 			private := c+hdrLen > a.MaxSharedSize
 			if !private {
@@ -371,16 +374,18 @@ func runProbe(u *Unit, res *UnitResult, cur *curFile) {
 				pr.ExactPriv = append(pr.ExactPriv, s)
 			}
 			a.Free(p)
-			if got := a.Allocs.Load(); got != int64(len(keep)) {
-				return failf("allocs-counter", "after Free of a %d-byte allocation: Allocator.Allocs = %d, live allocations = %d", s, got, len(keep))
+			if got := a.Allocs.Load(); got != int64(len(keep)) && allocsFail == nil {
+				allocsFail = failf("allocs-counter", "after Free of a %d-byte allocation: Allocator.Allocs = %d, live allocations = %d", s, got, len(keep))
 			}
 			pr.SizesTried++
 		}
 		return nil
 	})
-	if f != nil {
-		res.Fails = append(res.Fails, FailRec{Kind: f.Kind, What: "single Malloc/Free sweep over all sizes: " + f.What,
-			Replay: map[string]interface{}{"part": "probe", "note": "Malloc(s); check; Free for s = 0,1,2,… on one allocator", "fail": f.What}})
+	for _, f := range []*Fail{f, allocsFail} {
+		if f != nil {
+			res.Fails = append(res.Fails, FailRec{Kind: f.Kind, What: "single Malloc/Free sweep over all sizes: " + f.What,
+				Replay: map[string]interface{}{"part": "probe", "note": "Malloc(s); check; Free for s = 0,1,2,… on one allocator", "fail": f.What}})
+		}
 	}
 	sort.Ints(pr.Bounds)
 	res.Probe = pr
@@ -395,12 +400,12 @@ func runProbe(u *Unit, res *UnitResult, cur *curFile) {
 type pos struct{ ord, off int }
 
 type clsObs struct {
-	cap      int
-	pages    []uintptr
-	high     []int
-	live     map[pos]int // dynamic live allocations: position -> size
-	freed    []pos       // order in which currently-free slots were freed (top = last)
-	base     int         // how many prelude entries at the bottom of freed are untouched
+	cap       int
+	pages     []uintptr
+	high      []int
+	live      map[pos]int // dynamic live allocations: position -> size
+	freed     []pos       // order in which currently-free slots were freed (top = last)
+	base      int         // how many prelude entries at the bottom of freed are untouched
 	irregular bool
 }
 
@@ -593,4 +598,3 @@ func replayUnit(u *Unit) *Unit {
 	c.History, c.Assign, c.ReplayOne = nil, nil, false
 	return &c
 }
-
